@@ -453,7 +453,7 @@ public:
             DenseCholesky<Scalar> Bop(gramB);
 
             SymGEigsSolver<DenseSymMatProd<Scalar>, DenseCholesky<Scalar>, GEigsMode::Cholesky>
-                geigs(Aop, Bop, m_nev, (std::min)(10, int(gramA.rows()) - 1));
+                geigs(Aop, Bop, m_nev, (std::min)((std::max)(10, 2 * m_nev + 1), int(gramA.rows())));
 
             geigs.init();
             geigs.compute(SortRule::SmallestAlge);
